@@ -47,8 +47,12 @@ func (g *genC15) Block(w *World, b int) Block {
 	blk := Block{DtNs: pickDt(rng, true)}
 	var steps []Step
 	if rng.Chance(1, 8) {
-		steps = append(steps, Step{Kind: "param", S: map[string]string{"module": "storage"},
-			N: map[string]int64{"collateralPrice": rng.Pick64(2, 3, 999, 1000, 5_000_000, 10_000_000_000, 20_000_000_000_000)}})
+		ps := Step{Kind: "param", S: map[string]string{"module": "storage"},
+			N: map[string]int64{"collateralPrice": rng.Pick64(2, 3, 999, 1000, 5_000_000, 10_000_000_000, 20_000_000_000_000)}}
+		if rng.Chance(1, 2) {
+			ps.S["via"] = "gov"
+		}
+		steps = append(steps, ps)
 	}
 	k := rng.Intn(4)
 	for i := 0; i < k; i++ {
